@@ -70,7 +70,7 @@ def make_specs():
     W = c04.DispatchWorld()
     out = [c04.Dispatch(W, True, PROP), RemoveEmitter(W), OnThreadStop(W)]
     for sp in c13.make_specs():
-        if sp.qualname in ("BaseObserver.unschedule", "BaseObserver.unschedule_all", "BaseObserver._clear_emitters", "BaseObserver.remove_handler_for_watch"):
+        if sp.qualname in ("BaseObserver.unschedule", "BaseObserver.unschedule_all", "BaseObserver._clear_emitters", "BaseObserver.remove_handler_for_watch", "BaseObserver.schedule"):
             sp.prop = PROP
             out.append(sp)
     # stop() of the observer = EventDispatcher.stop -> BaseThread.stop -> on_thread_stop: every stop() call performs the
